@@ -37,6 +37,7 @@ var c14Templates = []struct{ name, src string }{
 	{"partial", `<%= partial("p", {"w": x}) %>`},
 	{"content", `<% contentFor("c") { %>[<%= x %>]<% } %><%= contentOf("c") %>`},
 	{"block", `<%= blk() { %>b<%= x %><% } %>`},
+	{"helper-defaults", `<%= opt(x) %>|<%= optb(x) { %>b<% } %>|<%= opt(x + 1) %>`},
 	{"operators", `<%= sv ~= "^a" %>,<%= sv ~= "b$" %>,<%= x * 2 - 1 %>,<%= sv + "!" %>,<%= x > 15 && sv == "ab" %>`},
 }
 
@@ -60,6 +61,16 @@ func c14Base() *plush.Context {
 	c := plush.NewContext()
 	c.Set("partialFeeder", func(name string) (string, error) { return `{<%= w %>}`, nil })
 	c.Set("blk", func(help plush.HelperContext) (string, error) { return help.Block() })
+	// helpers that write defaults into the options map they were handed (the call sites omit it)
+	c.Set("opt", func(v int, o map[string]interface{}) string {
+		o[fmt.Sprint("k", v)] = v
+		return fmt.Sprint(len(o), ":", o[fmt.Sprint("k", v)])
+	})
+	c.Set("optb", func(v int, o map[string]interface{}, help plush.HelperContext) (string, error) {
+		o[fmt.Sprint("b", v)] = v
+		b, err := help.Block()
+		return fmt.Sprint(len(o), b), err
+	})
 	return c
 }
 
@@ -371,7 +382,7 @@ func init() {
 			return s
 		},
 		Run:  c14Run,
-		Rule: "Part A — schedules: real plush code (overlay: scheduling points at every function entry/loop head of the root package and at every mutex operation, sync replaced by a scheduler-aware shim) run under a cooperative scheduler; ALL interleavings with at most B preemptions are enumerated depth-first (choice-prefix replay; replay divergence is a hard error) for: one parsed template executed by 2 threads with own root contexts / with children of one shared parent (13 templates, one per construct class, different data per thread), Render of the same text with a cold cache, Parse vs CacheSet, a contentFor block stored on the shared parent by an earlier execution and run by contentOf in the children at the same time, + on a slice with spare capacity held by the shared parent; oracle: every thread's (out, err) equals its solo result, no deadlock, no panic. Context operations: every pair of 2-operation threads over {Set(k,1), Set(k,2), Value(k), Has(k), Set(j,5), Value(j)} on one context with UNBOUNDED preemptions (as long as the scenario has at most 30 scheduling points, which holds on the unchanged tree; otherwise the largest bound fitting the budget); every recorded call/return history must be linearizable w.r.t. a sequential map (brute force); New() racing with Set/Value with bound 1. Part B — data races: the same scenario bodies free-running with 2, 8 and 32 goroutines in a separate -race build, repeated; any race report or 'concurrent map' fatal error is a violation attributed to the scenario. Non-trivial: all scenarios (>=2 threads).",
+		Rule: "Part A — schedules: real plush code (overlay: scheduling points at every function entry/loop head of the root package and at every mutex operation, sync replaced by a scheduler-aware shim) run under a cooperative scheduler; ALL interleavings with at most B preemptions are enumerated depth-first (choice-prefix replay; replay divergence is a hard error) for: one parsed template executed by 2 threads with own root contexts / with children of one shared parent (14 templates, one per construct class, different data per thread), Render of the same text with a cold cache, Parse vs CacheSet, a contentFor block stored on the shared parent by an earlier execution and run by contentOf in the children at the same time, + on a slice with spare capacity held by the shared parent; oracle: every thread's (out, err) equals its solo result, no deadlock, no panic. Context operations: every pair of 2-operation threads over {Set(k,1), Set(k,2), Value(k), Has(k), Set(j,5), Value(j)} on one context with UNBOUNDED preemptions (as long as the scenario has at most 30 scheduling points, which holds on the unchanged tree; otherwise the largest bound fitting the budget); every recorded call/return history must be linearizable w.r.t. a sequential map (brute force); New() racing with Set/Value with bound 1. Part B — data races: the same scenario bodies free-running with 2, 8 and 32 goroutines in a separate -race build, repeated; any race report or 'concurrent map' fatal error is a violation attributed to the scenario. Non-trivial: all scenarios (>=2 threads).",
 		Bound: func(th bool) string {
 			if th {
 				return "Part A: per scenario the largest preemption bound b with n^(b+1)/b! <= 2e8 scheduling points (n = points of the default schedule; reported per case, typically 2-3), 2 and 3 threads; context ops unbounded for 2 threads x 2 ops and 3 threads x 1 op, bound 3 for 3 threads (2+1+1 ops); Part B: 200 repetitions x {2,8,32} goroutines"
